@@ -26,8 +26,8 @@ from sa.report import Check
 META = {
     "explanation": (
         "Searches.search_matches is specialised (partial evaluation of its "
-        "AST) for each of the 9 operators x 6 haystack kinds x 5 needle "
-        "kinds; each of the 270 cells reduces to one normal-form result "
+        "AST) for each of the 9 operators x 10 haystack kinds x 5 needle "
+        "kinds; each of the 450 cells reduces to one normal-form result "
         "expression over the roles typed-haystack / typed-needle / raw "
         "needle, which is compared with an oracle table written from the "
         "property statement (typed equality for same-kind numbers and "
